@@ -1330,11 +1330,15 @@ func (seq *Sequence) Release() error {
 }
 
 func (seq *Sequence) updateLease() error {
-	return seq.db.Update(func(txn *Txn) error {
+	// The lease becomes usable only once the transaction that stores it has committed: Update
+	// can run the closure and still fail (for example with ErrConflict when another Sequence
+	// on the same key commits first), and numbers from such a lease must not be handed out.
+	var next, lease uint64
+	err := seq.db.Update(func(txn *Txn) error {
 		item, err := txn.Get(seq.key)
 		switch {
 		case err == ErrKeyNotFound:
-			seq.next = 0
+			next = 0
 		case err != nil:
 			return err
 		default:
@@ -1345,18 +1349,19 @@ func (seq *Sequence) updateLease() error {
 			}); err != nil {
 				return err
 			}
-			seq.next = num
+			next = num
 		}
 
-		lease := seq.next + seq.bandwidth
+		lease = next + seq.bandwidth
 		var buf [8]byte
 		binary.BigEndian.PutUint64(buf[:], lease)
-		if err = txn.SetEntry(NewEntry(seq.key, buf[:])); err != nil {
-			return err
-		}
-		seq.leased = lease
-		return nil
+		return txn.SetEntry(NewEntry(seq.key, buf[:]))
 	})
+	if err != nil {
+		return err
+	}
+	seq.next, seq.leased = next, lease
+	return nil
 }
 
 // GetSequence would initiate a new sequence object, generating it from the stored lease, if
